@@ -663,21 +663,32 @@ func apiStoreRevalidated(p *Prog, ctx *CtxInfo, f *Fn, call *ast.CallExpr, inv *
 			for _, g2 := range ctx.Posted {
 				ginfo := g2.Pkg.TypesInfo
 				takes, sets := false, false
-				inspectShallow(g2.Body(), func(y ast.Node) bool {
-					switch s := y.(type) {
-					case *ast.CallExpr:
-						if p.Callee(g2.Pkg, s) == copyM {
-							takes = true
-						}
-					case *ast.AssignStmt:
-						for i, lh := range s.Lhs {
-							if se, ok := ast.Unparen(lh).(*ast.SelectorExpr); ok && ginfo.Uses[se.Sel] == types.Object(vf) && i < len(s.Rhs) && mgrField(ginfo, s.Rhs[i]) == mf {
-								sets = true
-							}
+				// the closure itself and the package's helpers it calls directly (the snapshot may be taken in a method)
+				bodies := []ast.Node{g2.Body()}
+				for _, cc := range callsIn(g2.Body()) {
+					if fn := p.Callee(g2.Pkg, cc); fn != nil {
+						if h := p.FnOfObj(fn); h != nil && h.Pkg == g2.Pkg && h.Body() != nil && calledOnlyFrom(p, h, func(c *Fn) bool { return c == g2 }, 0) {
+							bodies = append(bodies, h.Body())
 						}
 					}
-					return true
-				})
+				}
+				for _, body := range bodies {
+					inspectShallow(body, func(y ast.Node) bool {
+						switch s := y.(type) {
+						case *ast.CallExpr:
+							if p.Callee(g2.Pkg, s) == copyM {
+								takes = true
+							}
+						case *ast.AssignStmt:
+							for i, lh := range s.Lhs {
+								if se, ok := ast.Unparen(lh).(*ast.SelectorExpr); ok && ginfo.Uses[se.Sel] == types.Object(vf) && i < len(s.Rhs) && mgrField(ginfo, s.Rhs[i]) == mf {
+									sets = true
+								}
+							}
+						}
+						return true
+					})
+				}
 				if takes && sets {
 					snapOK = true
 				}
